@@ -202,10 +202,10 @@ def run(ctx):
 
     # ---- stack level (the real per-connection task remote() over in-memory streams)
     stack_viol = []
-    if prop in ("C19", "C16"):
+    if prop in ("C19", "C16", "C14"):
         try:
             import comp_stack
-            stack_viol = comp_stack.check_admission(ctx) if prop == "C19" else comp_stack.check_wills(ctx)
+            stack_viol = {"C19": comp_stack.check_admission, "C16": comp_stack.check_wills, "C14": comp_stack.check_isolation}[prop](ctx)
         except Exception as e:  # noqa
             import traceback
             stack_viol = [("correspondence-only: stack driver failed: %s" % e, traceback.format_exc())]
